@@ -8,6 +8,9 @@ for d in sorted(Path("/verif/seeded").iterdir()):
     cr = m.get("check_result", {})
     summ = " ".join(str(m.get("summary", "")).split())
     needs = " ".join(str(m.get("needs", "")).split())
-    rows.append(f"| {d.name} | {summ[:170]}{'…' if len(summ) > 170 else ''} | {needs[:110]}{'…' if len(needs) > 110 else ''} | {', '.join(cr.get('rules_fired') or [])} |")
-print("| seed | change | needs to manifest | caught by |\n|---|---|---|---|")
+    first = cr.get("status_at_import") or cr.get("status") or ""
+    first = {"CAUGHT": "caught", "MISSED": "missed", "ANALYSIS-ERROR": "exit 2"}.get(first, first)
+    now = ", ".join(cr.get("rules_fired") or []) or {"MISSED": "**missed**", "ANALYSIS-ERROR": "exit 2"}.get(cr.get("status"), "")
+    rows.append(f"| {d.name} | {summ[:150]}{'…' if len(summ) > 150 else ''} | {needs[:90]}{'…' if len(needs) > 90 else ''} | {first} | {now} |")
+print("| seed | change | needs to manifest | first run | caught by (now) |\n|---|---|---|---|---|")
 print("\n".join(rows))
